@@ -29,12 +29,19 @@ def make_datasets(sizes, pre, seed=0):
   """Client k holds examples with globally unique ids (so loss/duplication/reordering is visible)."""
   import fedjax
   out, off = [], 1 + seed % 7
-  for n in sizes:
+  for k, n in enumerate(sizes):
     raw = {'i': np.arange(off, off + n, dtype=np.int32),
            'f': (np.arange(off, off + n, dtype=np.float32) * 0.5).reshape(n, 1)}
+    if k % 2:
+      raw = {'f': raw['f'], 'i': raw['i']}   # same feature SET, other dict insertion order: features go by name
     off += n
     out.append(fedjax.ClientDataset(raw, pre))
   return out
+
+
+def _canon_order(raw):
+  """InMemoryFederatedData insists on one key order for all clients."""
+  return {k: raw[k] for k in sorted(raw)}
 
 
 def check_padded_stream(batches, sizes, bs, buckets, seed=0):
@@ -110,7 +117,7 @@ def padded_fd(case):
   seed = case.get('seed', 0)
   dss = make_datasets(sizes, None, seed)
   ids = [b'c%02d' % k if k % 2 else b'c%02d\x00' % k for k in range(len(sizes))]
-  mapping = {cid: d.raw_examples for cid, d in reversed(list(zip(ids, dss)))}
+  mapping = {cid: _canon_order(d.raw_examples) for cid, d in reversed(list(zip(ids, dss)))}
   fd = fedjax.InMemoryFederatedData(mapping).preprocess_batch(lambda x: {**x, 'z': x['i'] * 2 + 1})
   out = check_padded_stream(list(fedjax.padded_batch_federated_data(fd, batch_size=bs,
                                                                    num_batch_size_buckets=buckets)),
@@ -243,7 +250,7 @@ def _three_fds(sizes, tmp):
   from fedjax.core import sqlite_federated_data as sq, federated_data as fdm
   ids = [b'c%02d' % k if k % 2 else b'c%02d\x00' % k for k in range(len(sizes))]
   dss = make_datasets(sizes, None)
-  mapping = {cid: d.raw_examples for cid, d in zip(ids, dss)}
+  mapping = {cid: _canon_order(d.raw_examples) for cid, d in zip(ids, dss)}
   path = os.path.join(tmp, 'fd.sqlite')
   with sq.SQLiteFederatedDataBuilder(path) as b:
     b.add_many([(cid, mapping[cid]) for cid in reversed(ids)])
@@ -303,7 +310,7 @@ def srb_fd(case):
   total = sum(sizes)
   ids = [b'c%02d' % k for k in range(len(sizes))]
   dss = make_datasets(sizes, None)
-  fd = fedjax.InMemoryFederatedData({cid: d.raw_examples for cid, d in zip(ids, dss)})
+  fd = fedjax.InMemoryFederatedData({cid: _canon_order(d.raw_examples) for cid, d in zip(ids, dss)})
   fd = fd.preprocess_batch(lambda x: {**x, 'z': x['i'] * 2 + 1})
   nb = math.ceil(3 * total / bs) + 2
 
@@ -392,7 +399,48 @@ def repeatable(case):
   return {'outcome': [repr(p) for p in passes], 'nontrivial': kind not in ('list', 'tuple') and len(items) > 0}
 
 
-SUBS = {'padded_cds': padded_cds, 'padded_fd': padded_fd, 'mismatch': mismatch, 'buf_shuffle': buf_shuffle,
+def stream_trace(arg):
+  """Seeded client / example streams of the three implementations (parent and child interpreters)."""
+  import fedjax
+  tmp = tempfile.mkdtemp(prefix='c15o_')
+  out = {}
+  try:
+    fds, ids = _three_fds(arg['sizes'], tmp)
+    fds['sub_slice'] = fds['sub'].slice(start=ids[1])
+    n = len(ids)
+    for name, fd in fds.items():
+      rec = {}
+      for buf in (1, 2, n + 2):
+        rec['shuffled_%d' % buf] = [bytes(c).hex() for c, _ in itertools.islice(fd.shuffled_clients(buffer_size=buf, seed=arg['seed']), 2 * n)]
+        it = fedjax.shuffle_repeat_batch_federated_data(fd, batch_size=3, client_buffer_size=buf, example_buffer_size=2,
+                                                        seed=arg['seed'])
+        rec['srb_%d' % buf] = [np.asarray(b['i']).tolist() for b in itertools.islice(it, 6)]
+      rec['padded'] = [np.asarray(b['i']).tolist() for b in fedjax.padded_batch_federated_data(fd, batch_size=3)]
+      out[name] = rec
+    fds['sql']._connection.close()
+  finally:
+    shutil.rmtree(tmp, ignore_errors=True)
+  return out
+
+
+def other_process(case):
+  """'Reproducibly for a fixed seed' - also in another interpreter process (hash salt 1, 2, ...): the seeded client and
+  example streams of every implementation are recomputed in child interpreters and compared with the parent's."""
+  from mc import child
+  arg = {'sizes': case['sizes'], 'seed': case['seed']}
+  here = stream_trace(arg)
+  evals = 0
+  for hs in case['hashseeds']:
+    there = child.call('mc.checks.c15_central_streams', 'stream_trace', arg, hs)
+    for impl in here:
+      for k in here[impl]:
+        require(here[impl][k] == there[impl][k], '%s: stream %s differs between two interpreter processes (PYTHONHASHSEED=%s)'
+                % (impl, k, hs), here[impl][k][:8], there[impl][k][:8], case=dict(case, hashseeds=[hs]))
+        evals += 1
+  return {'evals': evals, 'nontrivial': True, 'outcome': [case['sizes'], case['seed']]}
+
+
+SUBS = {'other_process': other_process, 'padded_cds': padded_cds, 'padded_fd': padded_fd, 'mismatch': mismatch, 'buf_shuffle': buf_shuffle,
         'buf_shuffle_seeded': buf_shuffle_seeded, 'shuf_batch': shuf_batch, 'shuffled_clients': shuffled_clients,
         'srb_fd': srb_fd, 'repeatable': repeatable}
 
@@ -435,6 +483,8 @@ def plan(ctx):
         cases.append({'sizes': [3, 0, 5], 'B': eff['batch_size'], 'buckets': eff['num_batch_size_buckets'], 'input': 'gen',
                       'route': [base, over], 'seed': ctx.seed})
   (ctx.pmap('padded_cds', cases, chunk=400) if th else ctx.run('padded_cds', cases, reverse_pass=True))
+  ctx.pmap('other_process', [{'sizes': sz, 'seed': sd, 'hashseeds': [hs]} for sz, sd in (([2, 0, 3, 1, 4], 0), ([1, 1, 1, 2], 5))
+                             for hs in ((1, 2, 3, 12345) if th else (1, 2))], chunk=1)
   ctx.run('padded_fd', [{'sizes': s, 'B': b, 'buckets': k, 'seed': ctx.seed}
                         for s in size_seqs(alpha if th else [0, 1, 2, 4, 5], 3) for b in (1, 2, 3, 4)
                         for k in ((1, 3) if b > 1 else (1,))])
